@@ -8,6 +8,12 @@ field    an independent peer holding the real keys brings the victim to a
          messages whose every field takes extreme values; afterwards the
          application writes (non-progressing send loops show as unbounded
          output).
+scp      a peer speaking the SCP record protocol badly (records with extreme
+         or unparsable fields, data shorter/longer than announced, stray
+         status bytes, over-long lines) to the four asyncssh SCP roles, ending
+         the channel in every way: bounded output and steps per chunk, the
+         channel closes when the peer closes it, asyncssh.scp() returns or
+         raises a documented error, no task or loop exception is left.
 parsers  byte strings (random and mutated valid inputs) to the decoders fed
          with untrusted data; each must return or raise its documented error.
 """
@@ -37,6 +43,9 @@ RULE = ('stream: Hypothesis builds a byte stream from a version line '
         'per-field values from {0, 1, 2, 255, 2^16, 2^31-1, 2^31, 2^32-1} '
         'for numbers and {empty, short, non-UTF-8, huge} for strings, with '
         'valid and invalid channel numbers, followed by application writes. '
+        'scp: grammar-generated SCP conversations (valid units with '
+        'mutated sizes/names/modes, noise items, six channel endings) against '
+        'the four asyncssh SCP roles. '
         'parsers: random bytes and single-edit mutants of valid encodings. '
         'Non-trivial = the input got past framing into a message handler or '
         'inner decoder (measured: connection survived the first packet / '
@@ -1070,6 +1079,341 @@ def parser_strategy(tier: str):
         'getters': st.lists(st.integers(0, 8), max_size=8)})
 
 
+# ------------------------------------------------------------------ scp ---
+#
+# SCP is a byte protocol of its own on top of a session channel: records
+# 'C<mode> <size> <name>\n', 'D...', 'E\n', 'T<mtime> 0 <atime> 0\n', file
+# data followed by a status byte, and status answers \0 / \1msg\n / \2msg\n.
+# The peer here speaks it as badly as it likes, to all four asyncssh roles
+# (server sink 'scp -t', server source 'scp -f', client download, client
+# upload), and ends the channel in every way.
+
+SCP_NAMES = [b'f', b'g', b'sub', b'..', b'.', b'/abs', b'a/b', b'',
+             b'\xff\xfe', b'n' * 300, b'f g']
+SCP_SIZES = [b'0', b'1', b'5', b'100', b'70000', b'2147483648',
+             b'18446744073709551616', b'1' + b'0' * 30, b'-1', b'x', b'',
+             b'0x10', b'5 5']
+SCP_MODES = [b'0644', b'0755', b'0000', b'7777', b'9999', b'-1', b'x', b'',
+             b'1' * 40]
+SCP_ENDS = ['eof-close', 'close', 'eof', 'eof-then-close', 'cut', 'nothing']
+SCP_ROLES = ['server-sink', 'server-source', 'client-sink', 'client-source']
+
+
+def scp_chunk(item) -> bytes:
+    k = item[0]
+
+    if k in ('C', 'D'):
+        return k.encode() + SCP_MODES[item[1] % len(SCP_MODES)] + b' ' + \
+            SCP_SIZES[item[2] % len(SCP_SIZES)] + b' ' + \
+            SCP_NAMES[item[3] % len(SCP_NAMES)] + b'\n'
+    if k == 'E':
+        return b'E\n'
+    if k == 'T':
+        vals = [b'0', b'1700000000', b'-1', b'x', b'4294967296',
+                b'9' * 25, b'']
+        return b'T' + vals[item[1] % 7] + b' 0 ' + vals[item[2] % 7] + \
+            b' 0\n'
+    if k == 'data':
+        return b'd' * item[1]
+    if k == 'ok':
+        return b'\0'
+    if k == 'warn':
+        return b'\x01' + b'w' * item[1] + b'\n'
+    if k == 'fatal':
+        return b'\x02' + b'e' * item[1] + b'\n'
+    if k == 'long':
+        return b'C' + b'9' * item[1]
+    return bytes.fromhex(item[1])
+
+
+def run_scp(case) -> CaseResult:
+    import os
+    import shutil
+    import tempfile
+
+    role = case['role']
+    victim, kind = role.split('-')
+    labels = {'role:' + role, 'end:' + case['end']}
+    log: List[Any] = []
+    tmp = tempfile.mkdtemp(prefix='c10scp-')
+
+    # what the victim may read (source roles) / where it writes (sink roles)
+    os.mkdir(tmp + '/src')
+    open(tmp + '/src/f', 'wb').write(b'F' * 1000)
+    open(tmp + '/src/big', 'wb').write(b'B' * 100000)
+    os.mkdir(tmp + '/src/sub')
+    open(tmp + '/src/sub/g', 'wb').write(b'G' * 10)
+    os.mkdir(tmp + '/dst')
+
+    flags = (' -r' if case['recurse'] else '') + \
+        (' -p' if case['preserve'] else '') + \
+        (' -d' if case['must_be_dir'] else '')
+
+    if victim == 'server':
+        ref = RefPeer('client')
+
+        class Server(SOwner):
+            def __init__(self):
+                SOwner.__init__(self, log)
+
+        opts: Dict[str, Any] = {
+            'server_factory': Server, 'encoding': None, 'allow_scp': True,
+            'sftp_factory': lambda chan: asyncssh.SFTPServer(chan,
+                                                             chroot=tmp)}
+    else:
+        hk = _HK.setdefault('ed', RefKey('ed25519'))
+        ref = RefPeer('server', host_key=hk)
+        opts = {'client_factory': lambda: COwner(log)}
+
+    conn = RefConn(ref)
+    link = RefLink(ref, opts)
+    h = link.h
+    side = 's' if victim == 'server' else 'c'
+    task = None
+
+    try:
+        link.start()
+
+        if victim == 'server':
+            link.pump()
+            conn.request_service()
+            link.pump()
+            conn.auth_password('user', 'pw')
+            link.pump()
+            rch = conn.open_channel()
+            link.pump()
+
+            if not rch.confirmed:
+                return CaseResult(['phase-not-reached'], False)
+
+            cmd = 'scp%s %s %s' % (flags, '-t' if kind == 'sink' else '-f',
+                                   '/dst' if kind == 'sink' else
+                                   ['/src/f', '/src', '/src/*'][
+                                       case['path'] % 3])
+            conn.chan_request(rch, b'exec', True, string(cmd.encode()))
+            link.pump()
+        else:
+            link.pump_until(link.ready.done)
+
+            if not link.ready.done() or link.ready.exception():
+                return CaseResult(['phase-not-reached'], False)
+
+            kw = {'recurse': case['recurse'], 'preserve': case['preserve']}
+
+            if kind == 'sink':
+                coro = asyncssh.scp((link.conn, 'remote'), tmp + '/dst', **kw)
+            else:
+                coro = asyncssh.scp(
+                    tmp + ['/src/f', '/src', '/src/big'][case['path'] % 3],
+                    (link.conn, 'remote'), **kw)
+
+            task = h.spawn(coro)
+            link.pump()
+
+            if not conn.channels:
+                return CaseResult(['phase-not-reached'], False)
+
+            rch = conn.channels[0]
+
+        def sent_by_victim() -> int:
+            return len(rch.stream()) + len(rch.stream(1))
+
+        answered = 0
+        total_in = 0
+
+        # ---- hostile SCP conversation
+        items = list(case['script'])
+        pos = 0
+
+        while pos < len(items):
+            n = 1 + (items[pos][-1] % 3 if case['coalesce'] else 0)
+            chunk = b''.join(scp_chunk(it[:-1]) for it in items[pos:pos + n])
+            for it in items[pos:pos + n]:
+                labels.add('item:' + it[0])
+            pos += n
+
+            if rch.closed or h.wire.closed[side] or not chunk:
+                if rch.closed:
+                    labels.add('closed-by-victim')
+                continue
+
+            before = h.wire.written[side]
+            got0 = sent_by_victim()
+            steps0 = h.steps
+            allow = 4 * len(chunk) + 400000
+            h.wire.budget[side] = before + allow
+
+            try:
+                k = conn.send_stream(rch, chunk)
+                total_in += k
+                link.pump()
+            except OutputBudgetExceeded:
+                raise Violation('unbounded-output', 'victim kept writing '
+                                '(> %d bytes) after %r...' %
+                                (allow, chunk[:40]), 'scp:output:' + role) \
+                    from None
+            finally:
+                h.wire.budget[side] = None
+
+            if h.steps - steps0 > 20000:
+                raise Violation('unbounded-steps', '%d loop steps for a '
+                                '%d-byte chunk %r...' %
+                                (h.steps - steps0, len(chunk), chunk[:40]),
+                                'scp:steps:' + role)
+
+            if sent_by_victim() > got0:
+                answered += 1
+
+        # ---- end of the channel
+        end = case['end']
+
+        if not rch.closed and not h.wire.closed[side]:
+            if end in ('eof-close', 'eof', 'eof-then-close'):
+                conn.eof(rch)
+            if end == 'eof-then-close':
+                link.pump()
+            if end in ('eof-close', 'close', 'eof-then-close'):
+                conn.close(rch)
+            if end == 'cut':
+                h.cut_wire()
+            link.pump()
+
+        if end != 'cut' and not h.wire.closed[side]:
+            # whatever state the conversation is in, a peer that closes the
+            # channel ends the transfer
+            if not rch.close_sent:
+                conn.close(rch)
+                link.pump()
+
+            if not rch.closed:
+                raise Violation('hung', 'peer closed the SCP channel, the '
+                                'victim never closed its side (%s, script %r)'
+                                % (role, items[:6]), 'scp:channel-open:' +
+                                role)
+
+        if task is not None:
+            if not task.done():
+                raise Violation('hung', 'asyncssh.scp() still pending after '
+                                'the channel/connection ended', 'scp:hung:' +
+                                role)
+
+            exc = task.exception()
+
+            if exc is None:
+                labels.add('scp-returned')
+            elif isinstance(exc, BAD_EXC) or not isinstance(
+                    exc, (OSError, asyncssh.Error, ValueError)):
+                raise Violation('undocumented-error', 'asyncssh.scp() raised '
+                                '%r' % exc, 'scp:raises:%s' %
+                                type(exc).__name__)
+            else:
+                labels.add('scp-raised:' + type(exc).__name__)
+
+        if not h.wire.closed[side]:
+            labels.add('connection-carries-on')
+
+        h.cut_wire()
+        h.settle()
+        check_owner(log, h, 'scp')
+
+        import asyncio
+        alive = [t for t in asyncio.all_tasks(h.loop) if not t.done()]
+
+        if alive:
+            raise Violation('task-left', '%d tasks alive after the '
+                            'connection ended: %r' %
+                            (len(alive), [str(t.get_coro())[:80]
+                                          for t in alive[:3]]),
+                            'scp:task-left:' + role)
+
+        if answered >= 2:
+            labels.add('conversation>=2')
+        if answered >= 5:
+            labels.add('conversation>=5')
+        if kind == 'sink' and any(files for _, _, files in
+                                  os.walk(tmp + '/dst')):
+            labels.add('file-received')
+
+        return CaseResult(sorted(labels), answered >= 1)
+    finally:
+        link.close()
+        shutil.rmtree(tmp, ignore_errors=True)
+
+
+def scp_strategy(tier: str):
+    sizes = {1: 1, 2: 5, 3: 100, 4: 70000}
+    noise = st.one_of(
+        st.tuples(pick(['C', 'C', 'D']), pick(range(9)), pick(range(13)),
+                  pick(range(11))),
+        st.tuples(st.just('E')),
+        st.tuples(st.just('T'), st.integers(0, 6), st.integers(0, 6)),
+        st.tuples(st.just('data'), pick([1, 4, 5, 6, 99, 100, 101, 5000,
+                                         70000])),
+        st.tuples(st.just('ok')),
+        st.tuples(st.just('warn'), pick([0, 3, 3000])),
+        st.tuples(st.just('fatal'), pick([0, 3, 3000])),
+        st.tuples(st.just('long'), pick([10, 70000, 300000])),
+        st.tuples(st.just('raw'), st.binary(min_size=1, max_size=12)
+                  .map(bytes.hex))).map(list)
+
+    @st.composite
+    def build(draw):
+        role = draw(pick(SCP_ROLES))
+        budget = 10 if tier == 'quick' else 24
+        script: List[List[Any]] = []
+
+        def unit(depth: int) -> None:
+            what = draw(pick(['file', 'file', 'file', 'dir', 'T', 'noise']))
+
+            if what == 'noise' or len(script) >= budget:
+                script.append(draw(noise))
+            elif what == 'T':
+                script.append(['T', draw(pick([1, 1, 0, 2, 3, 4, 5, 6])),
+                               draw(pick([1, 1, 0, 2, 3, 4, 5, 6]))])
+            elif what == 'file':
+                si = draw(pick([1, 2, 2, 3, 3, 4, 0]))
+                script.append(['C', draw(pick([0, 0, 0, 1, 2, 3])), si,
+                               draw(pick([0, 0, 1, 2, 3, 4, 5, 6, 8, 10]))])
+                size = sizes.get(si, 0)
+                n = max(size + draw(pick([0, 0, 0, 0, -1, 1, -size])), 0)
+                if n:
+                    script.append(['data', n])
+                tail = draw(pick(['ok', 'ok', 'ok', 'warn', 'fatal', 'none']))
+                if tail != 'none':
+                    script.append([tail] if tail == 'ok' else [tail, 3])
+            else:
+                script.append(['D', 1, 0, draw(pick([2, 2, 0, 3, 4, 6]))])
+                if depth < 3:
+                    for _ in range(draw(st.integers(0, 2))):
+                        unit(depth + 1)
+                if draw(pick([True, True, True, False])):
+                    script.append(['E'])
+
+        if role.endswith('sink'):
+            while len(script) < budget and draw(pick([True, True, True,
+                                                      True, False])):
+                unit(0)
+        else:
+            # the victim sends; the peer acknowledges, mostly
+            for _ in range(draw(st.integers(0, budget))):
+                script.append(draw(st.one_of(
+                    st.just(['ok']), st.just(['ok']), st.just(['ok']),
+                    st.just(['ok']), st.just(['ok']), st.just(['ok']),
+                    st.just(['warn', 3]), noise)))
+
+        for it in script:
+            it.append(draw(st.integers(0, 2)))
+
+        return {'role': role, 'end': draw(pick(SCP_ENDS)),
+                'recurse': draw(pick([True, True, False])),
+                'preserve': draw(st.booleans()),
+                'must_be_dir': draw(pick([False, False, True])),
+                'path': draw(st.integers(0, 12)),
+                'coalesce': draw(st.booleans()), 'script': script}
+
+    return build()
+
+
 FAMILIES = [
     Family('stream', run_stream, strategy=stream_strategy,
            budget={'quick': 3000, 'thorough': 40000},
@@ -1089,6 +1433,14 @@ FAMILIES = [
     Family('chanparams', run_chanparams, enumerate=chanparams_cases,
            exhaustive=True, required={'all': ['channel-established']},
            case_timeout=60, timeout_is_violation=True),
+    Family('scp', run_scp, strategy=scp_strategy,
+           budget={'quick': 1600, 'thorough': 30000},
+           required={'all': ['role:' + r for r in SCP_ROLES] +
+                     ['end:' + e for e in SCP_ENDS] +
+                     ['conversation>=2', 'conversation>=5',
+                      'closed-by-victim', 'file-received',
+                      'connection-carries-on']},
+           case_timeout=20, timeout_is_violation=True),
     Family('parsers', run_parser, strategy=parser_strategy,
            budget={'quick': 12000, 'thorough': 300000},
            required={'all': ['target:' + t for t in PARSER_TARGETS] +
